@@ -38,6 +38,35 @@ func (o hostOp) String() string {
 
 var c14Pool = []string{"a.co", "a.com.cn", "a.com", "b.com", "c.com", "d.com", "e.com", "f.com", "api.example.com", "{sub}.a.com", `{sub:\d+}.a.com`, "{sub:digit}.b.com", "{-s}.c.com", "::1"}
 
+// c14NestPool (family 1): wildcard domains that are textual prefixes of one another below one parameter, so that
+// deletions re-join nodes along a chain, and a domain with non-ASCII letters.
+var c14NestPool = []string{"{sub}.a.com", "{sub}.a.com.cn", "{sub}.a.org", "{sub}.a.co", "\u00e9cole.com", "{sub}.\u00e9cole.com"}
+
+type c14Cfg struct {
+	Family int `json:"family"`
+}
+
+func c14AlphabetOf(family int) []hostOp {
+	if family != 1 {
+		return c14Alphabet()
+	}
+	var ops []hostOp
+	for _, d := range c14NestPool {
+		ops = append(ops, hostOp{K: "add", D: d})
+	}
+	for _, d := range c14NestPool {
+		ops = append(ops, hostOp{K: "del", D: d})
+	}
+	return append(ops, hostOp{K: "add", D: "\u00c9COLE.com"}, hostOp{K: "del", D: "\u00c9cole.COM"})
+}
+
+func c14PoolOf(family int) []string {
+	if family == 1 {
+		return c14NestPool
+	}
+	return c14Pool
+}
+
 func c14Alphabet() []hostOp {
 	var ops []hostOp
 	for _, d := range c14Pool {
@@ -184,7 +213,9 @@ func buildHosts(ops []hostOp) (*mux.Hosts, *hostModel, string) {
 	return h, m, ""
 }
 
-func c14Hosts() []string {
+func c14Hosts() []string { return c14HostsOf(0) }
+
+func c14HostsOf(family int) []string {
 	seen := map[string]bool{}
 	var out []string
 	add := func(s string) {
@@ -193,13 +224,15 @@ func c14Hosts() []string {
 			out = append(out, s)
 		}
 	}
-	for _, d := range c14Pool {
+	for _, d := range c14PoolOf(family) {
 		w := d
 		w = strings.ReplaceAll(w, `{sub:\d+}`, "7")
 		w = strings.ReplaceAll(w, "{sub:digit}", "8")
 		w = strings.ReplaceAll(w, "{sub}", "x1")
 		w = strings.ReplaceAll(w, "{-s}", "yy")
-		for _, f := range []string{w, strings.ToUpper(w), w + ":80", w + ":", w + ":8x", "[" + w + "]", "[" + w + "]:80", "[" + w + "]:"} {
+		for _, f := range []string{w, strings.ToUpper(w), w + ":80", w + ":", w + ":8x", "[" + w + "]", "[" + w + "]:80", "[" + w + "]:",
+			"[" + w, w + "]", w + "]:80", "[" + w + ":80", // a bracket without its partner is part of the name
+			strings.ToUpper(w[:1]) + w[1:], strings.ToUpper(w[:len(w)/2]) + w[len(w)/2:]} { // capitals in part of the name only (incl. non-ASCII ones)
 			add(f)
 		}
 		for _, e := range explore.Edit1(w, []byte{'a', '.', ':', 'x'}) {
@@ -247,12 +280,14 @@ func c14Expand(raw json.RawMessage) (any, error) {
 	if err := json.Unmarshal(raw, &in); err != nil {
 		return nil, err
 	}
-	alpha := c14Alphabet()
+	var hcfg c14Cfg
+	json.Unmarshal(in.Cfg, &hcfg)
+	alpha := c14AlphabetOf(hcfg.Family)
 	hist := make([]hostOp, len(in.History))
 	for i, k := range in.History {
 		hist[i] = alpha[k]
 	}
-	hosts := c14Hosts()
+	hosts := c14HostsOf(hcfg.Family)
 	ph, pm, perr := buildHosts(hist)
 	if perr != "" {
 		return nil, fmt.Errorf("parent not replayable: %s", perr)
@@ -366,7 +401,9 @@ func init() {
 		rc.Assume = append(rc.Assume,
 			"histories of Add / Add(upper-cased) / Delete / Delete(upper-cased) / Delete(never added) / RegisterInterceptor over 12 literal and parameterised domains (six literals cross the index threshold) up to the depth bound, dedup on the reflective dump of the Hosts value",
 			"probes: per pool domain a witness host as is, upper-cased, with :80, with an empty port, with an invalid port, bracketed, bracketed with port, and all edit-distance-1 neighbours over {a . : x}; plus '', '*', unrelated hosts",
+			"a second family (depth+1) over wildcard domains that are textual prefixes of one another ({sub}.a.com, {sub}.a.com.cn, {sub}.a.org, {sub}.a.co) and domains with non-ASCII letters, added and deleted in mixed case; probes also carry a lone bracket and capitals in part of the name",
 			"oracle: accept iff ref.Resolve(live domain patterns, normalise(host)) is non-empty, parameters exactly that pattern's; rejecting leaves no parameters; Delete leaves every other answer unchanged")
-		explore.BFS(rc, "c14/expand", struct{}{}, depth, true, "C14")
+		explore.BFS(rc, "c14/expand", c14Cfg{}, depth, true, "C14")
+		explore.BFS(rc, "c14/expand", c14Cfg{Family: 1}, depth+1, true, "C14 nested wildcard domains, non-ASCII names")
 	}})
 }
